@@ -649,9 +649,32 @@ func (e *Exec) globalObj(g *ssa.Global) *Obj {
 	if o, ok := e.globals[g]; ok {
 		return o
 	}
-	o := e.newObj(e.zero(g.Type().(*types.Pointer).Elem()), "global:"+g.String())
+	et := g.Type().(*types.Pointer).Elem()
+	var v Value
+	if g.Pkg != nil && !strings.HasPrefix(g.Pkg.Pkg.Path(), repoMod) && types.Identical(et, types.Universe.Lookup("error").Type()) {
+		// a sentinel error of another package (io.EOF, context.Canceled ...): a
+		// distinct non-nil value, identity only
+		e.objSeq++
+		v = &IfaceV{t: types.Typ[types.UnsafePointer], v: &OpaqueV{kind: "error", id: e.objSeq, data: g.String()}}
+	} else {
+		v = e.zero(et)
+	}
+	o := e.newObj(v, "global:"+g.String())
 	e.globals[g] = o
 	return o
+}
+
+// sentinel returns the value of another package's error variable (io.EOF ...).
+func (e *Exec) sentinel(pkg, name string) Value {
+	for _, p := range e.prog.AllPackages() {
+		if p.Pkg.Path() == pkg {
+			if g, ok := p.Members[name].(*ssa.Global); ok {
+				return e.globalObj(g).v
+			}
+		}
+	}
+	e.unsupported("sentinel " + pkg + "." + name + " not loaded")
+	return nil
 }
 
 func (e *Exec) constVal(c *ssa.Const) Value {
